@@ -158,7 +158,8 @@ def cases(tier):
     # (iii) rgb triples
     step = 5 if thorough else 10
     triples = list(itertools.product(range(0, 101, step), repeat=3)) + \
-        [(-10, 50, 50), (150, 20, 20), (100, 100, 100.5), (0, 0, 0), (33.3, 66.6, 99.9), (1e9, 0, 0)]
+        [(-10, 50, 50), (150, 20, 20), (100, 100, 100.5), (0, 0, 0), (33.3, 66.6, 99.9), (1e9, 0, 0)] + \
+        [t for t in itertools.product((-5, 0, 100, 105), repeat=3)]       # out of range next to zeros and to the maximum
     for path in (list(cp) if thorough else ['light', 'all', 'zone', 'matrix-cell']):
         prog = BASE_RGB + (setreg('red', SENT[0]), setreg('green', SENT[1]), setreg('blue', SENT[2])) + cp[path]
         yield 'rgb/triple/' + path, prog, 3, triples
